@@ -144,7 +144,7 @@ Fixpoint wrun (fuel : nat) (pat : pattern) (text : str) (s : wstate) : pres (opt
 Definition wildcard_indexed (pat : pattern) (text : str) : pres (option bool) :=
   match pat with
   | [] => POk (Some (match text with [] => true | _ => false end))
-  | _ => wrun (S (wl_fuel pat text)) pat text (mkW 0 0 0 0 false)
+  | _ => wrun (wl_fuel pat text) pat text (mkW 0 0 0 0 false)
   end.
 
 (* ------------------------------------------------------------------ extensions/ipaddr.rs *)
